@@ -377,6 +377,81 @@ def _corr_lines(ctx, nets):
             ctx.disagreement("line per-unit row: impl %s model %s" % (i, [float(x) for x in m]), d)
 
 
+def _corr_branch_rows(ctx, rng, n):
+    """transformer / impedance rows of net._ppc['branch'] on two system bases vs C02.Model.trafo_branch / impedance_branch
+    (the rows C05_trafo_row_scaled / C05_impedance_row_scaled speak about), the relation row_scaled (sn2/sn1) on the real
+    rows, and the equality of the MW / Mvar results of the two runs (C05_sn_mva_invariance_trafo / _impedance)"""
+    from pandapower.pypower.idx_brch import (BR_R, BR_X, BR_B, BR_G, BR_R_ASYM, BR_X_ASYM, BR_G_ASYM, BR_B_ASYM, TAP, SHIFT,
+                                              BR_STATUS)
+    from vf import c02_gen as g2
+    cols = [BR_R, BR_X, BR_G, BR_B, BR_R_ASYM, BR_X_ASYM, BR_G_ASYM, BR_B_ASYM, TAP, SHIFT]
+    terms, impls, descs = [], [], []
+    for k in range(n):
+        vn_lv_bus = rng.choice([20.0, 10.0])
+        t = {"vnh": rng.choice([110.0, 115.5]), "vnl": rng.choice([vn_lv_bus, vn_lv_bus * 1.05]), "sn": rng.choice([25.0, 40.0, 63.0]),
+             "vk": rng.choice([8.0, 12.0, 16.25]), "vkr": rng.choice([0.25, 0.5, 1.0]), "pfe": rng.choice([0.0, 14.0, 29.0]),
+             "i0": rng.choice([0.0, 0.0625, 0.125]), "par": rng.choice([1, 1, 2]), "df": 1.0, "in": True, "maxload": 100.0,
+             "maxload_col": False, "rr": None, "xr": None}
+        shift = rng.choice([0.0, 150.0])
+        im = {"rft": rng.randint(1, 16) / 256, "xft": rng.randint(1, 32) / 256, "rtf": rng.randint(1, 16) / 256,
+              "xtf": rng.randint(1, 32) / 256, "gf": rng.choice([0.0, 1 / 64]), "bf": rng.choice([0.0, 1 / 32]),
+              "gt": rng.choice([0.0, 1 / 128]), "bt": rng.choice([0.0, 1 / 16]), "sn": rng.choice([10.0, 25.0, 100.0]), "in": True}
+        sns = rng.sample([0.5, 1.0, 10.0, 37.5, 100.0], 2)
+        obs = []
+        for sn in sns:
+            net = pp.create_empty_network(sn_mva=sn)
+            b = [pp.create_bus(net, 110.0), pp.create_bus(net, vn_lv_bus), pp.create_bus(net, vn_lv_bus)]
+            pp.create_ext_grid(net, b[0], vm_pu=1.02)
+            pp.create_transformer_from_parameters(net, b[0], b[1], sn_mva=t["sn"], vn_hv_kv=t["vnh"], vn_lv_kv=t["vnl"],
+                                                  vkr_percent=t["vkr"], vk_percent=t["vk"], pfe_kw=t["pfe"], i0_percent=t["i0"],
+                                                  shift_degree=shift, parallel=t["par"])
+            pp.create_impedance(net, b[1], b[2], rft_pu=im["rft"], xft_pu=im["xft"], rtf_pu=im["rtf"], xtf_pu=im["xtf"],
+                                gf_pu=im["gf"], bf_pu=im["bf"], gt_pu=im["gt"], bt_pu=im["bt"], sn_mva=im["sn"])
+            pp.create_load(net, b[2], p_mw=rng.randint(4, 40) / 8 if not obs else obs[0]["p"], q_mvar=1.0)
+            pp.runpp(net, tolerance_mva=1e-10, trafo_model="pi")
+            ft, _ = net._pd2ppc_lookups["branch"]["trafo"]
+            fi, _ = net._pd2ppc_lookups["branch"]["impedance"]
+            br = net._ppc["branch"]
+            obs.append({"sn": sn, "p": float(net.load.p_mw.iat[0]),
+                        "trafo": [float(br[ft][c].real) for c in cols] + [bool(br[ft][BR_STATUS].real)],
+                        "imp": [float(br[fi][c].real) for c in cols] + [bool(br[fi][BR_STATUS].real)],
+                        "res": list(net.res_trafo[["p_hv_mw", "q_hv_mvar", "p_lv_mw", "q_lv_mvar"]].values[0])
+                               + list(net.res_impedance[["p_from_mw", "q_from_mvar", "p_to_mw", "q_to_mvar"]].values[0])})
+            o = g2.trafo_oracle(t, t["vnl"], vn_lv_bus, sn)
+            terms.append("OL [C02.Model.ores C02.Model.obrow (C02.Model.trafo_branch %s false %s %s %s %s %s %s %s); "
+                         "C02.Model.obrow (C02.Model.impedance_branch %s %s)]" % (
+                             cq.q(sn), g2.trafo_term(t), g2.trafo_orc_term(o), cq.q(t["vnh"]), cq.q(t["vnl"]), cq.q(shift),
+                             cq.q(110.0), cq.q(vn_lv_bus), cq.q(sn), g2.imp_term(im)))
+            impls.append(obs[-1])
+            descs.append({"trafo": t, "impedance": im, "sn_mva": sn, "shift": shift})
+        # the statements of the theorems on the real rows / results
+        kk = sns[1] / sns[0]
+        d = {"trafo": t, "impedance": im, "sn_mva": sns, "shift": shift}
+
+        def rel(a, b):
+            return abs(a - b) <= 1e-9 * max(1.0, abs(a), abs(b))
+        for tab in ("trafo", "imp"):
+            r1, r2 = obs[0][tab], obs[1][tab]
+            ok = all(rel(r2[j], kk * r1[j]) for j in (0, 1, 4, 5)) and all(rel(r2[j] * kk, r1[j]) for j in (2, 3, 6, 7)) \
+                and r2[8] == r1[8] and r2[9] == r1[9] and r2[10] == r1[10]
+            ctx.corr_checked += 1
+            if not ok:
+                ctx.disagreement("row_scaled (sn2/sn1) does not hold on the real %s rows: %s vs %s" % (tab, r1, r2), d)
+        if not close(obs[0]["res"], obs[1]["res"]):
+            ctx.violation("spec", "trafo / impedance terminal powers depend on sn_mva: %s vs %s" % (obs[0]["res"], obs[1]["res"]), d)
+        ctx.count("branch_rows_pair")
+    model = ctx.coq_eval("c05b", "Base.QN C31.Model C02.Model", terms, shard=100)
+    for d, i, m in zip(descs, impls, model):
+        for tab, mm in (("trafo", m[0]), ("imp", m[1])):
+            ctx.corr_checked += 1
+            if isinstance(mm, cq.Err):
+                ctx.disagreement("%s row: model raises %s" % (tab, mm.s), d)
+                continue
+            got = i[tab]
+            if any(abs(float(a) - b) > 1e-9 * max(1, abs(b)) for a, b in zip(mm[:10], got[:10])) or bool(mm[10]) != got[10]:
+                ctx.disagreement("%s per-unit row: impl %s model %s" % (tab, got, [float(x) for x in mm[:10]]), d)
+
+
 def _corr_consec(ctx, rng, n):
     from pandapower.build_bus import create_consecutive_bus_lookup
     terms, impls, descs = [], [], []
@@ -436,6 +511,7 @@ def run(ctx):
             nets.append(n1)
     _corr_sum_by_group(ctx, rng, ctx.n(150, 1500))
     _corr_lines(ctx, nets)
+    _corr_branch_rows(ctx, rng, ctx.n(20, 200))
     _corr_consec(ctx, rng, ctx.n(60, 600))
     _corr_tolerance(ctx, rng)
 
